@@ -49,6 +49,8 @@ def run(ctx):
 
     r2 = ctx.rule("R2", "the use_spec_hashes switch (default off) selects the store; the disabled store is effect-free and never reports a change", min_instances=4)
     from .evalhelpers import eval_get_spec_hashes
+    from .shared import rule_config_switch
+    rule_config_switch(ctx, r2, "use_spec_hashes", "get_spec_hashes chooses between the file-backed and the no-op hash store")
     from ..symeval import tok
     sel, gsh = eval_get_spec_hashes(ctx)
     want_file = ("FileSpecHashes", (tok("WD") + "/.gwf/spec-hashes.json",))
